@@ -245,7 +245,37 @@ pub fn golomb_args(f: &str, w: Option<usize>, _t: usize) -> Vec<String> {
 /// tokens: `T n q(n*n, row major) h(n) d(n*T, row major)`.  (n+1)^T <= 20000 (the specification enumerates all plans).
 /// In-domain: q[i][i] = 0 (else `ood_nonzero_diagonal`); an instance whose demands cannot be met in time is tagged
 /// `infeasible` (the program must then print -1).
+/// merge-heavy family: 2-3 items, 4-6 periods, many demands (feasible by construction: item of period t due at t or later),
+/// asymmetric changeover 0..7, small stocking costs: at narrow widths many states with different "next item" are merged, and
+/// the relaxation must stay a relaxation whatever their order
+fn gen_psp_merge_heavy(rng: &mut Rng) -> ExInst {
+    let n = rng.range(2, 3) as usize; let t_hor = rng.range(4, 6) as usize;
+    let mut d = vec![vec![0i64; t_hor]; n];
+    for s in 0..t_hor {
+        if rng.chance(1, 5) { continue; }
+        let i = rng.below(n as u64) as usize;
+        let free: Vec<usize> = (s..t_hor).filter(|t| d[i][*t] == 0).collect();
+        if free.is_empty() { continue; }
+        let t = *rng.pick(&free);
+        d[i][t] = 1;
+    }
+    let total: i64 = d.iter().flatten().sum();
+    let mut q = vec![vec![0i64; n]; n];
+    for a in 0..n { for b in 0..n { if a != b { q[a][b] = rng.range(0, 7); } } }
+    let h: Vec<i64> = (0..n).map(|_| rng.range(0, 3)).collect();
+    let mut file = format!("{}\n{}\n{}\n\n", t_hor, n, total);
+    for a in 0..n { file.push_str(&join(&q[a])); file.push('\n'); }
+    file.push('\n');
+    file.push_str(&join(&h)); file.push_str("\n\n");
+    for i in 0..n { file.push_str(&join(&d[i])); file.push('\n'); }
+    file.push_str("\n0\n");
+    let tokens = format!("{} {} {} {} {}", t_hor, n, q.iter().map(|r| join(r)).collect::<Vec<_>>().join(" "), join(&h), d.iter().map(|r| join(r)).collect::<Vec<_>>().join(" "));
+    let mut tags = vec!["merge_heavy"];
+    if total == 0 { tags.push("no_demand"); }
+    ExInst { file, tokens, tags }
+}
 pub fn gen_psp(rng: &mut Rng) -> ExInst {
+    if rng.chance(2, 5) { return gen_psp_merge_heavy(rng); }
     let mut tags = vec![];
     let n = *rng.pick(&[1usize, 2, 2, 2, 3, 3, 3, 4]);
     let tmax = [0i64, 9, 8, 7, 6][n];
